@@ -113,7 +113,7 @@ def run(tier, replay=None):
     wd = workdir("C19")
     quick = tier == "quick"
     rng = random.Random(seed() * 7919 + 19)
-    n = 14 if quick else 90
+    n = 14 if quick else 60
     n_compiled = int(os.environ.get("VERIF_C19_COMPILED", 2 if quick else 8))     # scratch experiments may set 0
     edb_per_prog = 3 if quick else 8
     cap_present = 30 if quick else 150
@@ -143,8 +143,8 @@ def run(tier, replay=None):
     comp_futs = [pool.submit(compile_one, i) for i in comp_idx]
 
     # ---- EVAL: outputs without provenance and with -t explain equal the model (interpreter) -------------------
-    configs = [{"name": "interpreter, no provenance", "args": ["-j1"]},
-               {"name": "interpreter -t explain", "args": ["-t", "explain"]}]
+    configs = [{"name": "interpreter, no provenance", "args": ["-j1"], "timeout": 300},
+               {"name": "interpreter -t explain", "args": ["-t", "explain"], "timeout": 300}]
     runs = 0
     def eval_one(i):
         if not cases[i]:
@@ -186,7 +186,9 @@ def run(tier, replay=None):
         render.write_facts(P, j["case"]["edb"], facts); os.makedirs(out, exist_ok=True)
         cmd = ([build.SOUFFLE, "-t", "explain", "-F", facts, "-D", out, texts[i]] if j["mode"] == "interpreter"
                else [exes[i], "-F", facts, "-D", out])
-        answers, rc, err, script = ex.session(cmd, j["qs"], timeout=180)
+        answers, rc, err, script = ex.session(cmd, j["qs"], timeout=300)
+        if rc == -999:       # a loaded machine is not a hang: one more, much longer, attempt
+            answers, rc, err, script = ex.session(cmd, j["qs"], timeout=1200)
         with open(os.path.join(d, "script.txt"), "w") as f:
             f.write(script)
         with open(os.path.join(d, "answers.json"), "w") as f:
@@ -314,7 +316,7 @@ def run(tier, replay=None):
         "proof heights: the tree is finite, minimal height is not demanded; depth-limit leaves / hangs are reported",
         "the C++ compiler is trusted"])
 
-def judge_proofs(jcases, progs, wd, res, chunk=12):
+def judge_proofs(jcases, progs, wd, res, chunk=8):
     """Runs spec/JudgeProof.tla over the cases (several TLC runs in parallel); returns case number -> verdicts."""
     import re
     if not jcases:
